@@ -30,6 +30,7 @@ TInit ==
   /\ f = Traces[tid][1].f             \* every trace starts with the SetF of __init__
   /\ Traces[tid][1].ev = "SetF"
   /\ Z = NoneR /\ rhs = None /\ cur = NoneR
+  /\ v = 1 /\ rv = None /\ ld = 0        \* voltages and load count are not observed by the hooks
   /\ zint = [w \in Wires |-> None]
   /\ zins = [w \in Wires |-> FALSE]
   /\ ff = NoneR /\ nf = NoneR
@@ -43,15 +44,15 @@ TFillZ == /\ IsEv("FillZ") /\ Ev.f = f
 TCacheFill == /\ IsEv("CacheFill") /\ Ev.f = f
               /\ zint[Ev.w] = None
               /\ zint' = [zint EXCEPT ![Ev.w] = f]
-              /\ UNCHANGED <<f, Z, rhs, cur, zins, ff, nf>>
+              /\ UNCHANGED <<f, Z, rhs, v, rv, ld, cur, zins, ff, nf>>
 \* a use of a cache the design says is empty or of another frequency is accepted
 \* as a step but flagged (code 1): the code read a value the design invalidated
 TCacheUse == /\ IsEv("CacheUse") /\ Ev.f = f
              /\ UNCHANGED vars
 TApplyLoads == /\ IsEv("ApplyLoads") /\ Ev.f = f
                /\ Z # NoneR
-               /\ Z' = [at |-> Z.at, nload |-> Z.nload + 1, zi |-> zint]
-               /\ UNCHANGED <<f, rhs, cur, zint, zins, ff, nf>>
+               /\ Z' = [at |-> Z.at, nload |-> Z.nload + 1, zi |-> zint, loads |-> ld]
+               /\ UNCHANGED <<f, rhs, v, rv, ld, cur, zint, zins, ff, nf>>
 TFillRhs == /\ IsEv("FillRhs") /\ Ev.f = f
             /\ Set(FillRhs_(St)) /\ UNCHANGED <<ff, nf>>
 TSolve == /\ IsEv("Solve") /\ Ev.f = f
@@ -59,10 +60,10 @@ TSolve == /\ IsEv("Solve") /\ Ev.f = f
           /\ Set(Solve_(St)) /\ UNCHANGED <<ff, nf>>
 TFarField == /\ IsEv("FarField") /\ Ev.f = f /\ cur # NoneR
              /\ ff' = [c |-> cur, at |-> f, req |-> 0]
-             /\ UNCHANGED <<f, Z, rhs, cur, zint, zins, nf>>
+             /\ UNCHANGED <<f, Z, rhs, v, rv, ld, cur, zint, zins, nf>>
 TNearField == /\ IsEv("NearField") /\ Ev.f = f /\ cur # NoneR
               /\ nf' = [c |-> cur, at |-> f, req |-> 0]
-              /\ UNCHANGED <<f, Z, rhs, cur, zint, zins, ff>>
+              /\ UNCHANGED <<f, Z, rhs, v, rv, ld, cur, zint, zins, ff>>
 
 TNext == TSetF \/ TFillZ \/ TCacheFill \/ TCacheUse \/ TApplyLoads \/ TFillRhs
            \/ TSolve \/ TFarField \/ TNearField
